@@ -506,6 +506,11 @@ void fp12_read_bin(fp12_t a, const uint8_t *bin, size_t len) {
 		fp2_zero(a[1][1]);
 		fp2_read_bin(a[1][2], bin + 6 * RLC_FP_BYTES, 2 * RLC_FP_BYTES);
 		fp12_back_cyc(a, a);
+		/* Only elements of the cyclotomic subgroup have a packed form. */
+		if (!fp12_test_cyc(a)) {
+			RLC_THROW(ERR_NO_VALID);
+			return;
+		}
 	}
 	if (len == 12 * RLC_FP_BYTES) {
 		fp6_read_bin(a[0], bin, 6 * RLC_FP_BYTES);
